@@ -1,7 +1,7 @@
 // C08 - OSSPS sub-iterations follow the preconditioned relaxed update within bounds, and are restartable.
 //
-// World: small cylindrical scanners with an explicit geometric system matrix G (ray tracing, all symmetries off, no cache; z clipped
-// as the projectors do), efficiencies 1/n_b, additive term a_b:  ybar_b = ((G lambda)_b + a_b) / n_b  (ref_recon.h, shared with C07).
+// World: small cylindrical scanners with an explicit geometric system matrix G (ray tracing, extracted bin by bin with the symmetry
+// setting of the configuration; z clipped as the projectors do), efficiencies 1/n_b, additive term a_b:  ybar_b = ((G lambda)_b + a_b) / n_b  (ref_recon.h, shared with C07).
 // The reconstruction itself runs the REAL OSSPSReconstruction::set_up() + reconstruct() loop with the real
 // PoissonLogLikelihoodWithLinearModelForMeanAndProjData (default: all symmetries + cache) and the real QuadraticPrior; a derived class
 // only copies the estimate after every end_of_iteration_processing().
@@ -40,11 +40,16 @@ static const Geom GEOMS[] = {
   { 12, 3, 1, 2, 5, 5 },  // 5 segments (thorough)
 };
 static const int NGEOMS = 6;
-static std::map<int, shared_ptr<World>> g_worlds;
-static World& world(int gi)
+// One world per (geometry, sym): the explicit matrix G is extracted from the matrix exactly as the reconstruction configures it
+// (rr::make_world(geom, sym): sym=1 STIR's defaults, all symmetries + cache; sym=0 everything off).  For LORs whose end points lie
+// exactly on a voxel boundary (geometry 2, view 4, tang 0) rows derived through symmetries differ from direct rows by the end piece -
+// a rounding tie that is C03's subject, not this property's.
+static std::map<std::pair<int, int>, shared_ptr<World>> g_worlds;
+static World& world(int gi, int sym)
 {
-  auto it = g_worlds.find(gi);
-  if (it == g_worlds.end()) it = g_worlds.emplace(gi, make_world(GEOMS[gi])).first;
+  const auto key = std::make_pair(gi, sym ? 1 : 0);
+  auto it = g_worlds.find(key);
+  if (it == g_worlds.end()) it = g_worlds.emplace(key, make_world(GEOMS[gi], key.second)).first;
   return *it->second;
 }
 
@@ -261,6 +266,7 @@ static void cleanup(const std::string& prefix, int K)
     {
       ::unlink((prefix + "_precomputed_denominator" + ext).c_str());
       ::unlink((prefix + "_r_precomputed_denominator" + ext).c_str());
+      ::unlink((prefix + "_init" + ext).c_str());
       for (int k = 1; k <= K; ++k) { char num[32]; snprintf(num, sizeof num, "_%d", k); ::unlink((prefix + num + ext).c_str()); }
     }
 }
@@ -270,7 +276,7 @@ static void run_cfg(vmc::Ctx& ctx, const Cfg& c)
   const std::string kase = cfg_str(c);
   ctx.current("C08", kase);
   if (c.g < 0 || c.g >= NGEOMS || c.N < 1) return;
-  World& w = world(c.g);
+  World& w = world(c.g, c.sym);
   const Model m = make_model(w, c.norm, c.add, c.data);
   const int K = 3 * c.N;
   const std::string cls = cfg_class(c);
@@ -281,7 +287,19 @@ static void run_cfg(vmc::Ctx& ctx, const Cfg& c)
   // ---------------- uninterrupted run
   RunOut U;
   Built bu; std::string err;
-  if (!run_recon(ctx, w, m, c, K, 1, &init, "", prefix, c.files != 0, "", U, bu, err))
+  // files mode: as a user would run it - 'initial estimate' is a file, iterates are saved, the resumed runs read the saved files.
+  // (The Interfile header keeps 6 significant digits of the voxel size, so the geometry of an image read back is not bitwise the
+  // in-memory one - C10's subject; with the first image coming from a file as well, all runs of this configuration share one geometry.
+  // The explicit-matrix reference belongs to the in-memory geometry, so the formula is only checked in the in-memory configurations.)
+  std::string init_file;
+  if (c.files)
+    {
+      init_file = prefix + "_init.hv";
+      std::string e0;
+      if (small::throws([&] { InterfileOutputFileFormat f; std::string fn = prefix + "_init"; if (f.write_to_file(fn, *to_image(w, init)) != Succeeded::yes) throw std::runtime_error("write failed"); }, &e0))
+        { ctx.count("rejected_configs"); ctx.observe("could not write the initial image: " + e0.substr(0, 160)); return; }
+    }
+  if (!run_recon(ctx, w, m, c, K, 1, c.files ? nullptr : &init, init_file, prefix, c.files != 0, "", U, bu, err))
     {
       ctx.count("rejected_configs");
       if (c.prior == 3) ctx.count("rejected_prior_without_parabolic_surrogate");
@@ -340,7 +358,7 @@ static void run_cfg(vmc::Ctx& ctx, const Cfg& c)
   rs.D.resize(w.nv);
   for (size_t j = 0; j < w.nv; ++j) rs.D[j] = (c.den == 1 ? 1.0 : rs.D_data[j]) + 2 * rs.curv[j];
   model_min_to_small_positive(rs.D, 1e-5);
-  const bool formula = !c.iif && !rs.tie;
+  const bool formula = !c.iif && !rs.tie && !c.files;
   if (rs.tie) ctx.count("configs_screened_threshold_tie_in_denominator");
 
   // ---------------- the precomputed denominator itself
@@ -354,7 +372,7 @@ static void run_cfg(vmc::Ctx& ctx, const Cfg& c)
           const double tol = c.den == 1 ? 0.0 : 2e-4 * ref + 2e-6 * mx;
           if (!(std::fabs((double)U.D_setup[j] - ref) <= tol))
             {
-              ctx.violation("clause=denominator_data;" + cls + ";den=" + vmc::str(c.den) + ";norm=" + vmc::str(c.norm), kase,
+              ctx.violation("clause=denominator_data;" + cls + ";den=" + (c.den == 1 ? "one" : "computed") + ";norm=" + vmc::str(c.norm), kase,
                             "precomputed denominator after set_up(), voxel " + vmc::str(j) + ": STIR " + vmc::str(U.D_setup[j]) + " reference " + vmc::str(ref)
                                 + " ( = sum_b G_bj (G 1)_b / (n_b^2 y_b) on the explicit matrix)");
               break;
@@ -370,58 +388,83 @@ static void run_cfg(vmc::Ctx& ctx, const Cfg& c)
     }
 
   // ---------------- per-step formula
+  // Hypotheses that the statement leaves open, each to be held consistently over the whole run:
+  //   n = floor(k/N) (A) or floor((k-1)/N) (B);   voxels that no LOR sees are set to 0 before the first update only (F1) or before every update (F2)
   if (formula)
     {
       const double alpha = alpha_of(c), gamma = gamma_of(c), Ud = (double)Uf;
-      bool aliveA = true, aliveB = true; // n = floor(k/N) (A) or floor((k-1)/N) (B)
+      bool alive[2][2] = { { true, true }, { true, true } }; // [B][F2]
       for (int k = 1; k <= K; ++k)
         {
-          std::vector<float> prevf = k == 1 ? lam0 : Us[k - 2];
-          if (k == 1) for (size_t j = 0; j < w.nv; ++j) if (rs.sens_total[j] <= 0) prevf[j] = 0.F;
-          const std::vector<double> prev = to_double(prevf);
           const int S = (k - 1 + c.ss) % c.N;
-          std::vector<double> pg;
-          if (c.prior)
+          std::vector<float> prevf[2];
+          prevf[0] = k == 1 ? lam0 : Us[k - 2];
+          prevf[1] = prevf[0];
+          for (size_t j = 0; j < w.nv; ++j) if (rs.sens_total[j] <= 0) prevf[1][j] = 0.F;
+          if (k == 1) prevf[0] = prevf[1];
+          const bool fill_matters = !same_bits(prevf[0], prevf[1]);
+          const double z[2] = { alpha / (1 + gamma * (k / c.N)), alpha / (1 + gamma * ((k - 1) / c.N)) };
+          const bool z_matters = z[0] != z[1];
+          StepOut R[2][2]; int bad[2][2];
+          bool tie = false, capped = false;
+          for (int f = 0; f < 2; ++f)
             {
-              shared_ptr<Target> g(w.im->get_empty_copy());
-              ref_prior->compute_gradient(*g, *to_image(w, prevf));
-              pg = to_double(flatf(*g));
+              if (f == 1 && !fill_matters) { for (int zi = 0; zi < 2; ++zi) R[zi][1] = R[zi][0]; continue; }
+              const std::vector<double> prev = to_double(prevf[f]);
+              std::vector<double> pg;
+              if (c.prior)
+                {
+                  shared_ptr<Target> g(w.im->get_empty_copy());
+                  ref_prior->compute_gradient(*g, *to_image(w, prevf[f]));
+                  pg = to_double(flatf(*g));
+                }
+              for (int zi = 0; zi < 2; ++zi)
+                {
+                  if (zi == 1 && !z_matters) { R[1][f] = R[0][f]; continue; }
+                  R[zi][f] = ref_step(w, m, c, rs, S, prev, c.prior ? &pg : nullptr, z[zi], Ud);
+                  tie = tie || R[zi][f].tie; capped = capped || R[zi][f].capped;
+                }
             }
-          const double zA = alpha / (1 + gamma * (k / c.N)), zB = alpha / (1 + gamma * ((k - 1) / c.N));
-          const StepOut A = ref_step(w, m, c, rs, S, prev, c.prior ? &pg : nullptr, zA, Ud);
-          if (A.capped) ctx.count("steps_with_capped_quotient");
-          if (A.tie) { ctx.count("steps_screened_threshold_tie"); continue; }
-          const StepOut B = zA == zB ? A : ref_step(w, m, c, rs, S, prev, c.prior ? &pg : nullptr, zB, Ud);
+          if (capped) ctx.count("steps_with_capped_quotient");
+          if (tie) { ctx.count("steps_screened_threshold_tie"); continue; }
           ctx.count("steps_checked_against_formula");
-          if (A.at_zero) ctx.count("steps_with_voxels_clamped_at_0");
-          if (A.at_upper && c.ub) ctx.count("steps_with_voxels_clamped_at_upper_bound");
-          auto first_bad = [&](const StepOut& R) -> int {
-            double mx = 0; for (double x : R.out) mx = std::max(mx, std::fabs(x));
+          if (R[0][0].at_zero) ctx.count("steps_with_voxels_clamped_at_0");
+          if (R[0][0].at_upper && c.ub) ctx.count("steps_with_voxels_clamped_at_upper_bound");
+          auto first_bad = [&](const StepOut& r) -> int {
+            double mx = 0; for (double x : r.out) mx = std::max(mx, std::fabs(x));
             for (size_t j = 0; j < w.nv; ++j)
-              if (!(std::fabs((double)Us[k - 1][j] - R.out[j]) <= 2e-4 * R.mag[j] + 2e-6 * std::min(mx, 1e30))) return (int)j;
+              if (!(std::fabs((double)Us[k - 1][j] - r.out[j]) <= 2e-4 * r.mag[j] + 2e-6 * std::min(mx, 1e30))) return (int)j;
             return -1;
           };
-          const int badA = first_bad(A), badB = zA == zB ? badA : first_bad(B);
-          if (zA != zB)
+          bool any_ok = false;
+          for (int zi = 0; zi < 2; ++zi) for (int f = 0; f < 2; ++f) { bad[zi][f] = first_bad(R[zi][f]); any_ok = any_ok || bad[zi][f] < 0; }
+          if (z_matters)
             {
-              if (badA < 0 && badB >= 0) ctx.count("steps_that_identify_n_as_floor_k_over_N");
-              if (badB < 0 && badA >= 0) ctx.count("steps_that_identify_n_as_floor_kminus1_over_N");
+              if ((bad[0][0] < 0 || bad[0][1] < 0) && bad[1][0] >= 0 && bad[1][1] >= 0) ctx.count("steps_that_identify_n_as_floor_k_over_N");
+              if ((bad[1][0] < 0 || bad[1][1] < 0) && bad[0][0] >= 0 && bad[0][1] >= 0) ctx.count("steps_that_identify_n_as_floor_kminus1_over_N");
             }
-          const std::string key_tail = ";al=" + vmc::str(c.al) + ";ga=" + vmc::str(c.ga) + ";ub=" + vmc::str(c.ub) + ";den=" + vmc::str(c.den) + ";norm=" + vmc::str(c.norm) + ";add=" + vmc::str(c.add);
-          if (badA >= 0 && badB >= 0)
+          if (fill_matters)
             {
-              const int j = badA;
+              if ((bad[0][0] < 0 || bad[1][0] < 0) && bad[0][1] >= 0 && bad[1][1] >= 0) ctx.count("steps_that_identify_nonidentifiable_voxels_zeroed_at_first_step_only");
+              if ((bad[0][1] < 0 || bad[1][1] < 0) && bad[0][0] >= 0 && bad[1][0] >= 0) ctx.count("steps_that_identify_nonidentifiable_voxels_zeroed_at_every_step");
+            }
+          const std::string key_tail = std::string(";den=") + (c.den == 1 ? "one" : "computed"); // the options are in the case string; the key names the code path
+          if (!any_ok)
+            {
+              const int j = bad[0][0];
               ctx.violation("clause=update_formula;" + cls + key_tail, kase + ";k=" + vmc::str(k),
-                            "sub-iteration " + vmc::str(k) + " (subset " + vmc::str(S) + "), voxel " + vmc::str(j) + ": STIR " + vmc::str(Us[k - 1][j]) + ", reference " + vmc::str(A.out[j])
-                                + " with n=floor(k/N) or " + vmc::str(B.out[j]) + " with n=floor((k-1)/N) (previous value " + vmc::str(prev[j]) + ", D " + vmc::str(rs.D[j]) + ", zeta " + vmc::str(zA) + " resp. " + vmc::str(zB) + ")");
+                            "sub-iteration " + vmc::str(k) + " (subset " + vmc::str(S) + "), voxel " + vmc::str(j) + ": STIR " + vmc::str(Us[k - 1][j]) + ", reference " + vmc::str(R[0][0].out[j])
+                                + " with n=floor(k/N) or " + vmc::str(R[1][0].out[j]) + " with n=floor((k-1)/N) (previous value " + vmc::str(prevf[0][j]) + ", D " + vmc::str(rs.D[j]) + ", zeta " + vmc::str(z[0]) + " resp. " + vmc::str(z[1])
+                                + (fill_matters ? "; zeroing the voxels that no LOR sees before this step does not explain it either" : "") + ")");
               break;
             }
-          aliveA = aliveA && badA < 0;
-          aliveB = aliveB && badB < 0;
-          if (!aliveA && !aliveB)
+          bool any_alive = false;
+          for (int zi = 0; zi < 2; ++zi) for (int f = 0; f < 2; ++f) { alive[zi][f] = alive[zi][f] && bad[zi][f] < 0; any_alive = any_alive || alive[zi][f]; }
+          if (!any_alive)
             {
               ctx.violation("clause=relaxation_schedule;" + cls + key_tail, kase + ";k=" + vmc::str(k),
-                            "up to sub-iteration " + vmc::str(k) + " every step matches alpha/(1+gamma n) for n=floor(k/N) or n=floor((k-1)/N), but no single indexing of n matches all steps");
+                            "up to sub-iteration " + vmc::str(k) + " every step matches the update for n=floor(k/N) or n=floor((k-1)/N) (voxels that no LOR sees zeroed at the first step only or at every step), "
+                            "but no single choice matches all steps of the run");
               break;
             }
         }
@@ -458,24 +501,42 @@ static void run_cfg(vmc::Ctx& ctx, const Cfg& c)
       for (int i = 0; i < K - k && !bad; ++i)
         {
           const std::vector<float>& a = Rk[i]; const std::vector<float>& u = Us[k + i];
+          for (float x : a)
+            if (!(x >= 0) || !((double)x <= (c.iif ? (double)Uf * (1 + 1e-5) : (double)Uf)) || !std::isfinite(x))
+              {
+                ctx.violation("clause=bounds;run=resumed;" + cls + ";ub=" + vmc::str(c.ub) + ";iif=" + vmc::str(c.iif), kase + ";k=" + vmc::str(k),
+                              "resumed at sub-iteration " + vmc::str(k + 1) + ": estimate after sub-iteration " + vmc::str(k + 1 + i) + " contains " + vmc::str(x) + ", outside [0, " + vmc::str(Uf) + "]");
+                bad = true; break;
+              }
+          if (bad) break;
           if (same_bits(a, u)) { ctx.count("restart_images_bitwise_equal"); continue; }
           double mx = 0; for (float x : u) mx = std::max(mx, (double)std::fabs(x));
           const double d = max_abs_diff(a, u);
           const double rel = mx > 0 ? d / mx : d;
-          if (rel <= (rethreshold ? 1e-4 : 1e-5))
+          if (rethreshold)
             {
-              ctx.count(rethreshold ? "restart_images_equal_within_1e-4_after_rethreshold" : "restart_images_equal_within_rounding_only");
-              if (!rethreshold)
+              // the resumed run was asked to modify its start image ('enforce initial positivity'): it does not resume from the saved iterate, equality is not demanded
+              ctx.count(rel <= 1e-4 ? "restart_images_equal_within_1e-4_after_rethreshold" : "restart_images_deviating_more_than_1e-4_after_rethreshold");
+              if (rel > 1e-4)
                 {
-                  static std::set<std::string> seen; // one written-out example per class and shard
-                  const std::string oc = "files=" + vmc::str(c.files) + ";iif=" + vmc::str(c.iif) + ";nonidentifiable_voxels_nonzero=" + (nonident_nonzero ? "1" : "0");
-                  if (seen.insert(oc).second) ctx.observe("restart equal only within rounding (relative difference " + vmc::str(rel) + " <= 1e-5), class " + oc + ", e.g. " + kase + ";k=" + vmc::str(k));
+                  static bool once = false;
+                  if (!once) { once = true; ctx.observe("resumed run with 'enforce initial positivity' from an iterate with exact zeros deviates from the uninterrupted run by " + vmc::str(rel) + " of the maximum (not a violation: the option changes the start image), e.g. " + kase + ";k=" + vmc::str(k)); }
                 }
               continue;
             }
+          if (rel <= 1e-5)
+            {
+              ctx.count("restart_images_equal_within_rounding_only");
+              {
+                static std::set<std::string> seen; // one written-out example per class and shard
+                const std::string oc = "files=" + vmc::str(c.files) + ";iif=" + vmc::str(c.iif) + ";nonidentifiable_voxels_nonzero=" + (nonident_nonzero ? "1" : "0");
+                if (seen.insert(oc).second) ctx.observe("restart equal only within rounding (relative difference " + vmc::str(rel) + " <= 1e-5), class " + oc + ", e.g. " + kase + ";k=" + vmc::str(k));
+              }
+              continue;
+            }
           // when the saved iterate has non-zero values in voxels that no LOR sees, the options below do not matter for telling defects apart
-          ctx.violation(std::string("clause=restart;kind=images_differ;rethreshold_of_zeros=") + (rethreshold ? "1" : "0") + ";nonidentifiable_voxels_nonzero=" + (nonident_nonzero ? "1" : "0") + ";" + cls
-                            + (nonident_nonzero ? std::string() : ";den=" + vmc::str(c.den) + ";files=" + vmc::str(c.files) + ";iif=" + vmc::str(c.iif)),
+          ctx.violation(std::string("clause=restart;kind=images_differ;nonidentifiable_voxels_nonzero=") + (nonident_nonzero ? "1" : "0") + ";" + cls
+                            + (nonident_nonzero ? std::string() : std::string(";den=") + (c.den == 1 ? "one" : c.den == 2 ? "file" : "computed") + ";files=" + vmc::str(c.files)),
                         kase + ";k=" + vmc::str(k),
                         "resumed at sub-iteration " + vmc::str(k + 1) + " from the image after sub-iteration " + vmc::str(k) + ": image after sub-iteration " + vmc::str(k + 1 + i)
                             + " differs from the uninterrupted run by " + vmc::str(d) + " (max value " + vmc::str(mx) + ")");
@@ -496,7 +557,7 @@ int main(int argc, char** argv)
   ctx.rule = "history search: state = (configuration, k, image after sub-iteration k); transition = one real OSSPS update_estimate step or one restart (fresh objective function + "
              "reconstruction object, fresh set_up, start_subiteration_num=k+1); every k is an interruption point; distinct_nontrivial = distinct (configuration, k, image content) reached";
   ctx.assume("subset used at sub-iteration k is (k-1+start_subset) mod num_subsets (documented order, C06 checks the schedule itself); bins of a subset as defined by find_basic_vs_nums_in_subset + related view/segments");
-  ctx.assume("model of the mean: ybar_b = ((G lambda)_b + a_b)/n_b with G the explicit ray-tracing matrix (symmetries off, no cache), n_b the factors of BinNormalisationFromProjData");
+  ctx.assume("model of the mean: ybar_b = ((G lambda)_b + a_b)/n_b with G the explicit ray-tracing matrix, extracted bin by bin with the symmetry/cache setting of the configuration (sym=1 STIR defaults, sym=0 all off; independence of rows from symmetries is C03), n_b the factors of BinNormalisationFromProjData");
   ctx.assume("tolerance of the update formula: |STIR-ref| <= 2e-4 * (|lambda_j| + zeta N (sum_b G_bj (q_b + 1/n_b) + (|grad R_j| + 2 curv_j max|lambda|)/N) / D_j) + 2e-6 max|ref| : relative to the sum of the magnitudes "
              "of the terms of the update (float projections vs double reference); denominator: 2e-4 relative + 2e-6 max");
   ctx.assume("quotients y/ybar (gradient) and (G 1)/(n^2 y) (approximate Hessian, y=0 included) are capped at 10000 and set to 0 where the numerator is <= 1e-6*max of its viewgram, as documented in divide_and_truncate; "
@@ -504,10 +565,11 @@ int main(int argc, char** argv)
   ctx.assume("prior gradient and surrogate curvature are taken from the prior's own compute_gradient / parabolic_surrogate_curvature on a separate prior object (subject of C09); what OSSPS does with them (sign, 1/N, factor 2, floor) is checked");
   ctx.assume("zeta_n = alpha/(1+gamma n): the statement does not fix the indexing of n; accepted are n=floor(k/N) and n=floor((k-1)/N) for sub-iteration k (1-based), the same choice at every step of a run");
   ctx.assume("floor of the denominator: max(D, 1e-5 * smallest positive element of D) as documented (threshold_min_to_small_positive_value)");
-  ctx.assume("first sub-iteration of a run sets voxels with zero total sensitivity to 0 (fill_nonidentifiable_target_parameters) before the update");
+  ctx.assume("voxels with zero total sensitivity are set to 0 before the update (fill_nonidentifiable_target_parameters): the statement is silent about them; accepted are 'at the first sub-iteration of a run only' (what the code does) and 'at every sub-iteration', the same choice at every step of a run");
   ctx.assume("prior=quadratic_recompute is QuadraticPrior with parabolic_surrogate_curvature_depends_on_argument()=true: same mathematics, exercises the recompute_penalty_term_in_denominator branch");
-  ctx.assume("restart equality is bitwise, except: (i) when the resumed run has 'enforce initial positivity' on and the saved image contains exact zeros, set_up() lifts them to 1e-5*min positive value as documented, "
-             "then equality within 1e-4*max is demanded; (ii) a non-bitwise difference below 1e-5*max is recorded as an observation, not a violation");
+  ctx.assume("restart equality is bitwise, except: (i) when the resumed run has 'enforce initial positivity' on (not the default) and the saved image contains exact zeros, set_up() lifts them to 1e-5*min positive value as documented: "
+             "the run then does not start from the saved iterate and equality is not demanded (counted; the deviation is recorded); (ii) a non-bitwise difference below 1e-5*max is recorded as an observation, not a violation");
+  ctx.assume("restart through files: 'initial estimate' of the uninterrupted run is an Interfile image as well, so that all runs of the configuration work on the geometry as read from a header (6 significant digits of the voxel size, C10); formula not checked there");
   ctx.assume("with the inter-iteration filter on only bounds (with 1e-5 relative slack above the upper bound for the rounding of the normalised kernel) and restart are checked");
   if (ctx.replaying()) { run_cfg(ctx, cfg_parse(ctx.replay)); return ctx.finish(); }
   const bool th = ctx.thorough();
@@ -526,44 +588,54 @@ int main(int argc, char** argv)
       const int V = GEOMS[g].D / 2;
       for (int N = 1; N <= V; ++N)
         {
-          // geometries 0,1 (tiny): every N; larger ones: every balanced N (divisors of the number of views) and one unbalanced value (V-1)
-          if (g >= 2 && V % N != 0 && !(th && N == V - 1)) continue;
+          // geometries 0,1 (tiny): every N; larger ones: every balanced N (divisors of the number of views); thorough: + one unbalanced value (V-1) for geometry 2
+          if (g >= 2 && V % N != 0 && !(th && g == 2 && N == V - 1)) continue;
           // a prior without parabolic surrogate must be rejected by set_up()
           { Cfg c; c.g = g; c.N = N; c.prior = 3; if (!visit(c)) return ctx.finish(); }
           for (int add = 0; add < 2; ++add)
             for (int norm = 0; norm < 2; ++norm)
               for (int pi = 0; pi < 5; ++pi)
-                for (int start = 0; start < 3; ++start)
-                  for (int data = 0; data < (th ? 3 : 2); ++data)
+                for (int data = 0; data < (th && g < 4 ? 3 : 2); ++data)
+                  for (int start = (g >= 4 ? 1 : 0); start < 3; ++start) // the two largest geometries (thorough only): labelled start image and image with zeros, data 0/1
                     {
                       Cfg base; base.g = g; base.N = N; base.add = add; base.norm = norm; base.prior = PRIORS[pi]; base.start = start; base.data = data;
-                      if (!th)
+                      // (1) the OSSPS parameters: thorough, geometries 0,1 (and 2 with N<=2), labelled start image, data 0/1: full product alpha x gamma x upper bound x denominator;
+                      //     otherwise defaults, one option at a time and one combination (quick: the one-at-a-time list only for the labelled start image)
+                      if (th && start == 1 && data < 2 && (g <= 1 || (g == 2 && N <= 2)))
                         {
-                          // defaults, then one option at a time away from the defaults
-                          if (!visit(base)) return ctx.finish();
-                          { Cfg c = base; c.al = 1; if (!visit(c)) return ctx.finish(); }
-                          { Cfg c = base; c.ga = 0; if (!visit(c)) return ctx.finish(); }
-                          { Cfg c = base; c.ga = 2; if (!visit(c)) return ctx.finish(); }
-                          { Cfg c = base; c.ub = 1; if (!visit(c)) return ctx.finish(); }
-                          { Cfg c = base; c.den = 1; if (!visit(c)) return ctx.finish(); }
-                          { Cfg c = base; c.den = 2; if (!visit(c)) return ctx.finish(); }
-                          { Cfg c = base; c.al = 1; c.ga = 2; c.ub = 1; c.den = 1; if (!visit(c)) return ctx.finish(); }
+                          for (int al = 0; al < 2; ++al)
+                            for (int ga = 0; ga < 3; ++ga)
+                              for (int ub = 0; ub < 2; ++ub)
+                                for (int den = 0; den < 3; ++den)
+                                  { Cfg c = base; c.al = al; c.ga = ga; c.ub = ub; c.den = den; if (!visit(c)) return ctx.finish(); }
                         }
                       else
-                        for (int al = 0; al < 2; ++al)
-                          for (int ga = 0; ga < 3; ++ga)
-                            for (int ub = 0; ub < 2; ++ub)
-                              for (int den = 0; den < 3; ++den)
-                                { Cfg c = base; c.al = al; c.ga = ga; c.ub = ub; c.den = den; if (!visit(c)) return ctx.finish(); }
-                      // options of the framework around the update
-                      { Cfg c = base; c.pos = 1; if (!visit(c)) return ctx.finish(); }
-                      { Cfg c = base; c.uss = 0; if (N > 1 && !visit(c)) return ctx.finish(); }
-                      { Cfg c = base; c.ss = N - 1; if (N > 1 && !visit(c)) return ctx.finish(); }
-                      { Cfg c = base; c.sym = 0; if (!visit(c)) return ctx.finish(); }
-                      { Cfg c = base; c.iif = 1; c.ub = 1; if (!visit(c)) return ctx.finish(); }
-                      if (th) { Cfg c = base; c.pos = 1; c.ub = 1; c.ga = 2; c.ss = N - 1; c.sym = 0; c.den = 2; if (!visit(c)) return ctx.finish(); }
-                      // restart through the files that the reconstruction saves
-                      if (th || (start == 1 && data == 0)) { Cfg c = base; c.files = 1; c.den = 2; if (!visit(c)) return ctx.finish(); }
+                        {
+                          if (!visit(base)) return ctx.finish();
+                          if (th || start == 1)
+                            {
+                              { Cfg c = base; c.al = 1; if (!visit(c)) return ctx.finish(); }
+                              { Cfg c = base; c.ga = 0; if (!visit(c)) return ctx.finish(); }
+                              { Cfg c = base; c.ga = 2; if (!visit(c)) return ctx.finish(); }
+                              { Cfg c = base; c.ub = 1; if (!visit(c)) return ctx.finish(); }
+                              { Cfg c = base; c.den = 1; if (!visit(c)) return ctx.finish(); }
+                              { Cfg c = base; c.den = 2; if (!visit(c)) return ctx.finish(); }
+                              { Cfg c = base; c.al = 1; c.ga = 2; c.ub = 1; c.den = 1; if (!visit(c)) return ctx.finish(); }
+                            }
+                        }
+                      // (2) options of the framework around the update
+                      if (start == 2 || th) { Cfg c = base; c.pos = 1; if (!visit(c)) return ctx.finish(); } // re-thresholding matters for images with zeros
+                      if (start == 1)
+                        {
+                          { Cfg c = base; c.pos = 1; if (!th && !visit(c)) return ctx.finish(); }
+                          { Cfg c = base; c.uss = 0; if (N > 1 && !visit(c)) return ctx.finish(); }
+                          { Cfg c = base; c.ss = N - 1; if (N > 1 && !visit(c)) return ctx.finish(); }
+                          { Cfg c = base; c.sym = 0; if (!visit(c)) return ctx.finish(); }
+                          { Cfg c = base; c.iif = 1; c.ub = 1; if (!visit(c)) return ctx.finish(); }
+                          if (th) { Cfg c = base; c.pos = 1; c.ub = 1; c.ga = 2; c.ss = N - 1; c.sym = 0; c.den = 2; if (!visit(c)) return ctx.finish(); }
+                        }
+                      // (3) restart through the files that the reconstruction saves
+                      if (th ? (start != 0) : (start == 1 && data == 0)) { Cfg c = base; c.files = 1; c.den = 2; if (!visit(c)) return ctx.finish(); }
                     }
         }
     }
